@@ -28,6 +28,26 @@ theorem C07_in_buffer (buf : List Nat) (sz off : Nat) (len : Option Nat) (hsz : 
   have := C07_reads sz off len i h
   omega
 
+/-- the value is a byte -/
+theorem C07_lt (buf : List Nat) (hwf : WFBytes buf) (sz off : Nat) (len : Option Nat) :
+    calcChksum buf sz off len < 256 := by
+  rw [C07_value buf hwf]; exact Nat.mod_lt _ (by decide)
+
+theorem sumBytes_add (buf : List Nat) (off a : Nat) : ∀ b, sumBytes buf off (a + b) = sumBytes buf off a + sumBytes buf (off + a) b
+  | 0 => by simp [sumBytes]
+  | b + 1 => by
+    have ih := sumBytes_add buf off a b
+    show sumBytes buf off (a + b) + byteAt buf (off + (a + b)) = sumBytes buf off a + (sumBytes buf (off + a) b + byteAt buf (off + a + b))
+    rw [ih, Nat.add_assoc off a b]; omega
+
+/-- the value does not depend on how a range is cut: the checksum of `[off, off+a+b)` is the sum, modulo 256, of the
+checksums of `[off, off+a)` and `[off+a, off+a+b)` (header and body summed separately or in one call) -/
+theorem C07_split (buf : List Nat) (hwf : WFBytes buf) (sz off a b : Nat) :
+    calcChksum buf sz off (some (a + b)) = (calcChksum buf sz off (some a) + calcChksum buf sz (off + a) (some b)) % 256 := by
+  rw [C07_value buf hwf, C07_value buf hwf, C07_value buf hwf]
+  simp only [effLen, Option.getD_some]
+  rw [sumBytes_add]; omega
+
 /-- non-vacuity: a concrete buffer with carries in every lane and a flush (300 bytes of 0xFF) -/
 example : WFBytes (List.replicate 300 255) ∧
     calcChksum (List.replicate 300 255) 300 3 none = (297 * 255) % 256 := by decide +kernel
